@@ -513,6 +513,8 @@ class ODF2MoinMoin(object):
                         buffer.append(text)
                 elif tag == "text:list":
                     buffer.append(self.listToString(node))
+                elif tag == "table:table":
+                    buffer.append(self.tableToString(node))
                 else:
                     method = self.elements.get(tag)
                     if method:
